@@ -389,6 +389,56 @@ def _minmax(ctx, P, perm, dim):
     return lo, hi
 
 
+@scenario('C18', fns=['abstract.SplineGeometry.bbox', 'abstract.GeomdlBase.__deepcopy__', 'operations.translate',
+                      'operations.scale', 'NURBS.Curve.ctrlpts', 'NURBS.Surface.ctrlpts', 'NURBS.Volume.ctrlpts'],
+          quick=[dict(kind=k, how=h, first=f) for k in ('curve', 'surface', 'volume') for h in ('translate', 'deepcopy+set')
+                 for f in ('copy', 'orig')])
+def bbox_of_copies(ctx, kind, how, first):
+    """requires: a rational shape with a symbolic net and weights; a moved copy of it (operations.translate with
+                 inplace=False, or copy.deepcopy followed by the ctrlpts setter)
+       ensures : read in either order, each object's bbox is the (min, max) of ITS OWN control points, its ends are its
+                 own first / last control point, and ctrlpts reads back its own net"""
+    import copy
+    deg = {'curve': [1], 'surface': [1, 1], 'volume': [1, 1, 1]}[kind]
+    sizes = [2] * len(deg)
+    total = 2 ** len(deg)
+    dim = 2 if kind == 'curve' else 3
+    kvs = [[ctx.lit(0), ctx.lit(0), ctx.lit(1), ctx.lit(1)] for _ in deg]
+    P = _sorted_net(ctx, total, dim, _perm(total, 'mix'), strict=False)      # one order of the symbolic coordinates (ties allowed)
+    W = shapes.weights(ctx, 'w', total)
+    if kind == 'curve':
+        obj = shapes.build_curve(ctx, 1, kvs[0], P, W)
+    elif kind == 'surface':
+        obj = shapes.build_surface(ctx, 1, 1, kvs[0], kvs[1], P, 2, 2, W)
+    else:
+        obj = shapes.build_volume(ctx, 1, 1, 1, kvs[0], kvs[1], kvs[2], P, 2, 2, 2, W)
+    vec = [ctx.lit(7), ctx.lit(-11), ctx.lit(13)][:dim]
+    P2 = [[c + t for c, t in zip(pt, vec)] for pt in P]
+    if how == 'translate':
+        cp = ctx.geomdl('operations').translate(obj, list(vec), inplace=False)
+    else:
+        cp = copy.deepcopy(obj)
+        cp.ctrlpts = [list(pt) for pt in P2]
+    start = [ctx.lit(0)] * len(deg)
+    stop = [ctx.lit(1)] * len(deg)
+
+    def look(tag, o, net):
+        ctx.check_eq_grid(tag + '.ctrlpts=own_net', o.ctrlpts, net)
+        bb = o.bbox
+        for d in range(dim):
+            for i in range(total):
+                ctx.check('%s.bbox.contains.own_P[%d][%d]' % (tag, i, d), ctx.all(ctx.le(bb[0][d], net[i][d]), ctx.le(net[i][d], bb[1][d])))
+            ctx.check('%s.bbox.min_is_attained[%d]' % (tag, d), ctx.any(*[ctx.eq(bb[0][d], net[i][d]) for i in range(total)]))
+            ctx.check('%s.bbox.max_is_attained[%d]' % (tag, d), ctx.any(*[ctx.eq(bb[1][d], net[i][d]) for i in range(total)]))
+        ctx.check_eq_vec(tag + '.start=own_first_ctrlpt', o.evaluate_single(start[0] if kind == 'curve' else start), net[0])
+        ctx.check_eq_vec(tag + '.end=own_last_ctrlpt', o.evaluate_single(stop[0] if kind == 'curve' else stop), net[-1])
+
+    for who in (('copy', 'original') if first == 'copy' else ('original', 'copy')):
+        look(who, cp if who == 'copy' else obj, P2 if who == 'copy' else P)
+    look('original.again', obj, P)
+    look('copy.again', cp, P2)
+
+
 def _inside_shapes(tier):
     out = [dict(kind='curve', deg=[1], sizes=[3], rational=False, perm='mix'),
            dict(kind='curve', deg=[2], sizes=[4], rational=False, perm='id'),
